@@ -340,7 +340,7 @@ func cmdCheck(args []string) int {
 	}
 
 	// 5. evidence
-	var paths, obligations, discharged, undis, unproved, unwind, engErr, queries, reached, pruned int
+	var paths, obligations, discharged, undis, unproved, unwind, engErr, queries, reached, pruned, crossN, crossDis, crossUnk int
 	var steps int64
 	var solverS float64
 	funcs := map[string]int64{}
@@ -360,11 +360,14 @@ func cmdCheck(args []string) int {
 		engErr += s.EngineErrors
 		queries += r.Queries
 		reached += s.ReachedEnd
+		crossN += s.CrossChecked
+		crossDis += s.CrossDisagree
+		crossUnk += s.CrossUnknown
 		solverS += r.SolverTime
 		for k, v := range s.Funcs {
 			funcs[k] += v
 		}
-		if !r.Complete || s.Undischarged > 0 || s.UnwindFail > 0 || s.EngineErrors > 0 || s.Unproved > 0 {
+		if !r.Complete || s.Undischarged > 0 || s.UnwindFail > 0 || s.EngineErrors > 0 || s.Unproved > 0 || s.CrossDisagree > 0 {
 			complete = false
 		}
 		for i, ps := range s.PathSamples {
@@ -390,6 +393,7 @@ func cmdCheck(args []string) int {
 		"obligations": obligations, "discharged": discharged, "undischarged": undis, "unproved_paths": unproved,
 		"unwinding_failures": unwind, "engine_errors": engErr, "spurious_models": spurious, "native_mismatches": mismatches, "mismatch_samples": mismatchSamples,
 		"solver_queries": queries, "solver_time_s": round1(solverS), "solver": "z3 4.8.12 (-in, QF_BV terms over push/pop)",
+		"cross_solver":                   map[string]interface{}{"solvers": cfg.Cross, "assertion_vcs_rechecked": crossN, "disagreements": crossDis, "unknown": crossUnk},
 		"paths_reaching_final_assertion": reached, "paths_pruned_infeasible": pruned,
 		"functions_encoded": topFuncs(funcs, 0), "harnesses": harnessRows, "known_findings_hit": knownHit,
 		"exhaustive":  complete && nviol == 0,
